@@ -1089,6 +1089,10 @@ static void c16_lookup(Rng& r) {
             std::string hk = h.registered ? "registered" : "unknown";
             if (!raw) { viol("c16:lookup:" + hk + ":raw-missing", "tryGetRaw('" + nm + "') finds nothing"); break; }
             if (raw->value() != h.value) { viol("c16:lookup:" + hk + ":raw-value", "tryGetRaw('" + nm + "') value differs from the first occurrence"); break; }
+            // the throwing getters are the same look-up
+            { std::string gv; bool threw = false; try { gv = coll.getRaw(nm).value(); } catch (const std::exception&) { threw = true; }
+              if (threw) { viol("c16:lookup:" + hk + ":getRaw-throws", "getRaw('" + nm + "') throws although the header is there"); break; }
+              if (gv != h.value) { viol("c16:lookup:" + hk + ":getRaw-value", "getRaw('" + nm + "') value differs from the first occurrence"); break; } }
             if (h.registered) {
                 if (!coll.has(nm)) { viol("c16:lookup:registered:has", "has('" + nm + "') false"); break; }
                 auto th = coll.tryGet(nm);
@@ -1098,11 +1102,19 @@ static void c16_lookup(Rng& r) {
                 fresh->parse(h.value);
                 std::ostringstream b; fresh->write(b);
                 if (a.str() != b.str()) { viol("c16:lookup:registered:typed-value", "typed '" + nm + "' is not the first occurrence"); break; }
+                { std::string gt; bool threw = false; try { auto g = coll.get(nm); std::ostringstream c; g->write(c); gt = c.str(); } catch (const std::exception&) { threw = true; }
+                  if (threw || gt != b.str()) { viol(std::string("c16:lookup:registered:get-") + (threw ? "throws" : "value"), "get('" + nm + "') " + (threw ? "throws" : "is not the first occurrence")); break; } }
             } else if (coll.has(nm)) { /* has() covers typed headers only: fine either way */ }
             g_evals++;
         }
     }
     if (coll.tryGetRaw("X-Never-Sent-Header")) viol("c16:lookup:spurious", "absent header found");
+    { bool threw = false; try { (void)coll.getRaw("X-Never-Sent-Header"); } catch (const std::exception&) { threw = true; } if (!threw) viol("c16:lookup:spurious", "getRaw of an absent header does not throw"); }
+    // the lists hold each distinct name once, with the value of its first occurrence
+    { std::map<std::string, std::string> seenRaw; bool dup = false; for (auto& rw : coll.rawList()) { std::string l = Http::Header::toLowercase(rw.second.name()); if (seenRaw.count(l)) dup = true; seenRaw[l] = rw.second.value(); }
+      if (dup) viol("c16:lookup:rawlist-duplicate", "rawList() holds one name twice");
+      for (auto& kv : first) { auto it = seenRaw.find(kv.first); if (it == seenRaw.end()) { viol("c16:lookup:rawlist-missing", "rawList() lacks '" + kv.second->name + "'"); break; } if (it->second != kv.second->value) { viol("c16:lookup:rawlist-value", "rawList() value of '" + kv.second->name + "' is not the first occurrence"); break; } }
+      size_t extra = asResponse ? 1 : 0; if (seenRaw.size() != first.size() + (first.count("content-length") ? 0 : extra)) viol("c16:lookup:rawlist-size", "rawList() has " + std::to_string(seenRaw.size()) + " names, the message " + std::to_string(first.size() + extra)); }
     g_distinct.add("lk:" + std::to_string(hs.size()) + ":" + std::to_string(first.size()) + ":" + std::to_string(fnv(msg) % 4096));
     count("lookup_messages");
     maybe_sample("lookup-message", msg.substr(0, 300));
